@@ -226,6 +226,52 @@ def classify_facet(c: ast.AST, kind: str, index=None) -> Optional[str]:
     return None
 
 
+def space_sets(index: RepoIndex, rep, rule: str) -> None:
+    """what the constructors of StateSpace / ObservationSpace store, read as sets: the declared
+    colours plus NONE, the declared types plus NoneGridObject / Hidden, each free of repeats
+    (the compact representations number the elements of these collections)"""
+    # constructor facts the facets rely on (read as sets, not as spellings)
+    from ..setden import set_den
+    for cname in ('StateSpace', 'ObservationSpace'):
+        init = index.func(SPACES, f'{cname}.__init__')
+        w = walk_function(init.node)
+        st: Dict[str, ast.AST] = {}
+        for e in w.events:
+            if e.kind == 'attrstore':
+                from ..inline import inline_pure_exprs
+                st[src(e.target)] = inline_pure_exprs(index, init.module, init.cls,
+                                                      w.expand(e.value))
+
+        def den(attr: str):
+            v = st.get(attr)
+            # attributes stored earlier stand for their value (`set(self.object_types) | ..`)
+            return None if v is None else set_den(
+                v, lambda t: st.get(t) if t != attr and t.startswith('self.') else None)
+        wanted = [('self.colors', {'colors', 'elt:Color.NONE'},
+                   'the declared colours do not always include Color.NONE (colourless objects '
+                   'would be rejected)', f'{cname} colours include NONE'),
+                  ('self._agent_object_types', {'object_types', 'elt:NoneGridObject'},
+                   'the held-item types do not include NoneGridObject (an empty hand would be '
+                   'rejected)', f'{cname} held types include None')]
+        if cname == 'ObservationSpace':
+            wanted.append(('self._grid_object_types', {'object_types', 'elt:Hidden'},
+                           'observation cell types do not include Hidden',
+                           'obs types include Hidden'))
+        for attr, atoms, msg, label in wanted:
+            d = den(attr)
+            if d is None:
+                raise AnalysisError(f'{cname}.__init__: `{attr} = '
+                                    f'{src(st[attr])[:80] if attr in st else "<missing>"}` is '
+                                    f'outside the set expressions understood')
+            rep.check(d[0] == atoms, rule, SPACES, f'{cname}.__init__', init.node.lineno,
+                      src(st[attr]), msg + f' -- it denotes {sorted(d[0])}', label)
+            rep.check(d[1], rule, SPACES, f'{cname}.__init__', init.node.lineno,
+                      src(st[attr]), f'`{attr}` can hold an element twice: the compact '
+                      f'representations number its elements, a repeated one leaves a gap and '
+                      f'pushes the largest index past the declared bound',
+                      f'{cname} {attr} duplicate-free')
+
+
 def membership(index: RepoIndex, rep, rule: str) -> None:
     for cname, kind, facets in (('StateSpace', 'state', FACETS_STATE),
                                 ('ObservationSpace', 'obs', FACETS_OBS)):
@@ -276,46 +322,7 @@ def membership(index: RepoIndex, rep, rule: str) -> None:
                           + (f'{size}={bad[0]}, {axis}={bad[1]} is '
                              f'{"accepted" if bad[2] else "rejected"}' if bad else ''),
                           f'obs {axis} bounds half-open')
-    # constructor facts the facets rely on (read as sets, not as spellings)
-    from ..setden import set_den
-    for cname in ('StateSpace', 'ObservationSpace'):
-        init = index.func(SPACES, f'{cname}.__init__')
-        w = walk_function(init.node)
-        st: Dict[str, ast.AST] = {}
-        for e in w.events:
-            if e.kind == 'attrstore':
-                from ..inline import inline_pure_exprs
-                st[src(e.target)] = inline_pure_exprs(index, init.module, init.cls,
-                                                      w.expand(e.value))
-
-        def den(attr: str):
-            v = st.get(attr)
-            # attributes stored earlier stand for their value (`set(self.object_types) | ..`)
-            return None if v is None else set_den(
-                v, lambda t: st.get(t) if t != attr and t.startswith('self.') else None)
-        wanted = [('self.colors', {'colors', 'elt:Color.NONE'},
-                   'the declared colours do not always include Color.NONE (colourless objects '
-                   'would be rejected)', f'{cname} colours include NONE'),
-                  ('self._agent_object_types', {'object_types', 'elt:NoneGridObject'},
-                   'the held-item types do not include NoneGridObject (an empty hand would be '
-                   'rejected)', f'{cname} held types include None')]
-        if cname == 'ObservationSpace':
-            wanted.append(('self._grid_object_types', {'object_types', 'elt:Hidden'},
-                           'observation cell types do not include Hidden',
-                           'obs types include Hidden'))
-        for attr, atoms, msg, label in wanted:
-            d = den(attr)
-            if d is None:
-                raise AnalysisError(f'{cname}.__init__: `{attr} = '
-                                    f'{src(st[attr])[:80] if attr in st else "<missing>"}` is '
-                                    f'outside the set expressions understood')
-            rep.check(d[0] == atoms, rule, SPACES, f'{cname}.__init__', init.node.lineno,
-                      src(st[attr]), msg + f' -- it denotes {sorted(d[0])}', label)
-            rep.check(d[1], rule, SPACES, f'{cname}.__init__', init.node.lineno,
-                      src(st[attr]), f'`{attr}` can hold an element twice: the compact '
-                      f'representations number its elements, a repeated one leaves a gap and '
-                      f'pushes the largest index past the declared bound',
-                      f'{cname} {attr} duplicate-free')
+    space_sets(index, rep, rule)
     # Area.contains is two-sided on both coordinates
     f = index.func('gym_gridverse/geometry.py', 'Area.contains')
     b = f.body()
